@@ -197,7 +197,7 @@ func cyclePrograms(r *rng.R, k int) []cycleCase {
 		// the cycle with a TAIL of 1..3 typedefs leading into it, plain or with a value cast to the outermost
 		// one: whoever looks for the end of the chain starts outside the cycle and never comes back to
 		// where it started
-		for variant := 0; variant < 3; variant++ {
+		for variant := 0; variant < 5; variant++ {
 			var ds []*Def
 			for i := 0; i < n; i++ {
 				ds = append(ds, &Def{Kind: 'T', Name: name("T", i), Ty: tref(name("T", i+1))})
@@ -214,6 +214,14 @@ func cyclePrograms(r *rng.R, k int) []cycleCase {
 				ds = append(ds, &Def{Kind: 'C', Name: "c", Ty: tref(prev), Val: &CV{Kind: 'i', I: 1}})
 			case 2:
 				ds = append(ds, &Def{Kind: 'S', SKind: 's', Name: "Holder", Fields: []*Field{{ID: i64p(1), Name: "f", Req: 'o', Ty: tref(prev), Dflt: &CV{Kind: 's', S: "x"}}}})
+			case 3:
+				// a dotted reference that names one of these typedefs as if it were an enum (Tail1.X,
+				// T2.X): whoever follows typedef targets to find the enum must not go round for ever
+				who := []string{prev, name("T", r.Intn(n))}[r.Intn(2)]
+				ds = append(ds, &Def{Kind: 'C', Name: "c", Ty: &TExpr{Kind: "i32"}, Val: cref(who + ".X")})
+			case 4:
+				who := []string{prev, name("T", r.Intn(n))}[r.Intn(2)]
+				ds = append(ds, &Def{Kind: 'S', SKind: 's', Name: "Holder", Fields: []*Field{{ID: i64p(1), Name: "f", Req: 'o', Ty: &TExpr{Kind: "list", A: &TExpr{Kind: "i32"}}, Dflt: &CV{Kind: 'l', L: []*CV{cref(who + ".X")}}}}})
 			}
 			for i := len(ds) - 1; i > 0; i-- { // any source order
 				j := r.Intn(i + 1)
